@@ -101,7 +101,7 @@ def run_traced(c, lazy):
 
 
 # ----------------------------------------------------------------------------- numeric pipelines
-def gen_pipeline(ctx: Ctx, focus=False, force_algorithm=False, failing=False, partial_blocks=False):
+def gen_pipeline(ctx: Ctx, focus=False, force_algorithm=False, failing=False, partial_blocks=False, detect=False):
     """random pipeline; `focus`: the region where most bookkeeping meets — ensemble potential x several exit planes x a
     detector that drops base axes x a scan"""
     rng = ctx.rng
@@ -128,13 +128,13 @@ def gen_pipeline(ctx: Ctx, focus=False, force_algorithm=False, failing=False, pa
         dets = rng.choice([["annular"], ["flexible"], ["segmented"], ["annular", "pixelated"], ["annular", "flexible", "waves"]])
     post = rng.choice(["none", "ctf", "ctf+intensity"]) if dets == ["waves"] else "none"
     r = rng.random()
-    kind = "multislice" if focus else ("build" if r < 0.12 else "detect" if r < 0.27 else "multislice")
+    kind = "multislice" if focus else ("detect" if detect else "build" if r < 0.12 else "detect" if r < 0.2 else "multislice")
     if kind == "build":
         dets, post = ["waves"], rng.choice(["none", "ctf", "ctf+intensity", "ctf-ensemble"])
     elif kind == "detect":  # detection as a step of its own: detector.detect(waves) on lazy vs eager built waves
         builder, post = "probe", "none"
         scan = rng.choice(["none", "custom", "line", "grid"])
-        dets = [rng.choice(["waves", "annular", "flexible", "segmented", "pixelated"])]
+        dets = [rng.choice(["waves", "segmented"] if detect else ["waves", "annular", "flexible", "segmented", "pixelated"])]
     entry = "builder" if kind in ("build", "detect") else rng.choice(["builder", "builder", "real", "reciprocal"])
     # the real-space kernel costs ~30 s CPU per run (JIT compilation per operator): thorough tier, ~5 % of the pipelines
     slow = ["realspace"] if (ctx.thorough and rng.random() < 0.15) else []
@@ -403,7 +403,7 @@ class C01(Property):
 
     def conformance(self, ctx: Ctx):
         for i in range(ctx.n(36, 500)):
-            c = gen_pipeline(ctx, focus=(i % 4 == 3), force_algorithm=(i % 4 == 1), failing=(i % 6 == 2), partial_blocks=(i % 6 == 4))
+            c = gen_pipeline(ctx, focus=(i % 4 == 3), force_algorithm=(i % 4 == 1), failing=(i % 6 == 2), partial_blocks=(i % 6 == 4), detect=(i % 12 == 0))
             self.oracle(ctx, c)
             ctx.count(f"numeric:{c['kind']}:{c['pot']}:{c['builder']}:scan={c['scan']}:batch={c['max_batch']}:{c['scheduler']}:post={c['post']}:entry={c['entry']}:{c['algorithm']}:fail={c['fail']}:ensprobe={c['ens_probe']}")
             ctx.case(c, nontrivial=True)
